@@ -19,7 +19,7 @@ class Server(object):
         self.shift_end = False
         self.next_end_service_date = float("Inf")
         self.busy_time = 0.0
-        self.busy_time_at_wrap_up = 0
+        self.busy_time_before_wrap_up = None
 
     @property
     def utilisation(self):
